@@ -137,6 +137,9 @@ def r13_3(ctx):
     ctx.floor("en-passant successor sites", n, 1)
 
 
+PIECE_GENERATORS = {"move_generation::%s_moves" % k for k in ("pawn", "knight", "bishop", "rook", "queen", "king")}
+
+
 def r13_4(ctx):
     """The successor builder takes its target squares from the per-piece generators only: the list of
     targets it iterates is filled by get_moves (and the en-passant probe has its own path); nothing else
@@ -163,7 +166,8 @@ def r13_4(ctx):
                 arg_ty = t["arg_tys"][i] if i < len(t.get("arg_tys", [])) else ""
                 if not arg_ty.startswith("&mut "):
                     continue
-                if c.endswith("move_generation::get_moves"):
+                if c.endswith("move_generation::get_moves") or c in PIECE_GENERATORS:
+                    # the dispatcher, or (dispatcher inlined) the per-piece generators themselves
                     fillers += 1
                     continue
                 if c.endswith("IntoIterator>::into_iter") or c.endswith("::iter") or c.endswith("::clear") or c.endswith("deref") or c.endswith("deref_mut"):
